@@ -449,5 +449,5 @@ def _numba_case(g, rng, t):
     if nthreads == 2:
         progs.append([dict(reg)] + _dispatching_ops(g, rng, 2, be=("obj", "np")) + [dict(reg)])
     sched = {"kind": rng.choice(("sites", "walk")), "seed": rng.randrange(1 << 30), "p": 0.3, "which": ["with", "store", "func"], "domain": "line", "observe": 0,
-             "observe_mut": 0}
+             "observe_mut": 0, "unblock_after_s": 60.0}
     return _finish(g, k, progs, [], sched, niso=0)
